@@ -10,11 +10,40 @@ import (
 	"taskverif/an"
 )
 
+// groupProg is the program used to follow groups through parameters (set by the rules).
+var groupProg *an.Prog
+
 // groupKey identifies a WaitGroup / mutex / channel: by struct field when it
 // lives in a field, by allocation when it is a local.
 func groupKey(v ssa.Value) string {
 	if k := an.FieldKey(v); k != "" {
 		return k
+	}
+	// a group handed down by pointer is the caller's group
+	if prm, ok := an.Resolve(v).(*ssa.Parameter); ok && groupProg != nil {
+		fn := prm.Parent()
+		idx := -1
+		for i, q := range fn.Params {
+			if q == prm {
+				idx = i
+			}
+		}
+		keys := map[string]bool{}
+		for _, site := range groupProg.CallSitesOf(fn) {
+			c := site.Common()
+			ai := idx
+			if c.IsInvoke() {
+				ai--
+			}
+			if ai >= 0 && ai < len(c.Args) && site.Parent() != fn {
+				keys[groupKey(c.Args[ai])] = true
+			}
+		}
+		if len(keys) == 1 {
+			for k := range keys {
+				return k
+			}
+		}
 	}
 	for _, r := range an.ResolveAll(v) {
 		if a, ok := r.(*ssa.Alloc); ok {
